@@ -1,6 +1,7 @@
 import SimilarVerif.Lemmas.Utils
 import SimilarVerif.Lemmas.Myers
 import SimilarVerif.Lemmas.MyersCost
+import SimilarVerif.Lemmas.PatienceCost
 /-!
 # C19 — Myers and Patience do work proportional to (N+M)·(D+1)
 
@@ -8,10 +9,15 @@ Cost model: `World.cmps` counts evaluations of `new[j] == old[i]`; the correspon
 a counting element type EXACTLY on every request, so the cost model is validated like any other output.
 Proved: each prefix/suffix scan makes at most `common length + 1` comparisons; **Myers makes at most
 `22·(N+M+1)·(D+1)` comparisons** (`myers_work_bound`, Lemmas/MyersCost.lean on top of the middle-snake
-theory).  Patience: the comparisons of its gap and tail runs are Myers runs and obey the same bound
-each; the bound for the composite with `D` = its own script is not yet a theorem and is established by
-the `cost` suite: measured comparisons (cross and same-side) on near-identical, block-move, periodic,
-small/large-alphabet and unrelated inputs up to a few thousand items, full ranges and sub-ranges.
+theory), and **Patience makes at most `57·(N+M+1)·(D+1)` comparisons with `D` the size of the script
+it reports** (`patience_work_bound`, Lemmas/PatienceCost*.lean): 22 for the outer Myers run over the
+unique items, whose edit distance is at most the cost of ANY valid script of the whole input
+(`outer_le_cost`), and at most 35 for the scans, gap runs and the tail run.  The Patience bound needs
+the equality tests to come from two label sequences (`IdentP.EqPattern`, which `Env.ofSeqs`
+satisfies): for an arbitrary, inconsistent same-side relation it is false
+(`PatienceCostWIP`-counterexample recorded below).  The `cost` suite measures the same quantity on the
+implementation (cross and same-side comparisons) on near-identical, block-move, periodic,
+small/large-alphabet, unrelated and structured-key inputs, full ranges and sub-ranges.
 A theorem cannot exhibit wall-clock time; comparisons are the proxy the property itself names.
 -/
 namespace SimilarVerif.C19
@@ -66,5 +72,22 @@ theorem middle_snake_cost : type_of% @MyersC.findMiddleSnake_cost := @MyersC.fin
 
 /-- the same bound for `conquer` over any hook that makes no comparisons of its own -/
 theorem conquer_work_bound : type_of% @MyersC.conquer_cmps := @MyersC.conquer_cmps
+
+/-- **Patience does work proportional to (N+M+1)·(D+1)** with `D = nDel ops + nIns ops` the size of the
+script it reports: without a deadline, for element tests that come from two label sequences
+(`EqPattern`), the run reports a valid script `ops` and makes at most `57·(N+M+1)·(D+1)` comparisons.
+Without `EqPattern` the statement is false: `on i j = (i==j)`, `oo = (i==j)`, `nn i j = (i==j || both odd)`
+on N = M = 1000 items reports the identity (D = 0) after 136478 > 57·2001 comparisons (an `nn` that is not
+an equivalence compatible with `on` makes `unique` drop half of the items, so the outer run is far apart). -/
+theorem patience_work_bound : type_of% @PatienceC.patience_cmps := @PatienceC.patience_cmps
+
+/-- the hypothesis of `patience_work_bound` is met by every pair of label sequences -/
+theorem patience_work_bound_ofSeqs : type_of% @PatienceC.patience_cmps_ofSeqs := @PatienceC.patience_cmps_ofSeqs
+
+/-- decomposition for ANY `Env` (only in-bounds tests needed): outer run + the rest -/
+theorem patience_work_split : type_of% @PatienceC.patience_cmps_split := @PatienceC.patience_cmps_split
+
+/-- the edit distance of the unique-item lists is at most the cost of any valid script of the whole ranges -/
+theorem patience_outer_le_cost : type_of% @PatienceC.outer_le_cost := @PatienceC.outer_le_cost
 
 end SimilarVerif.C19
